@@ -273,3 +273,67 @@ def render_block_itp(name, blk, dangling=None):
         if open_guard:
             out.append("#endif")
     return "\n".join(out) + "\n"
+
+
+# ---------------------------------------------------------------- composite links: base bond x pairs of modifiers
+ORDERS = ["+", ">", "<", "*", "++"]
+MODIFIERS = ["repl", "rm", "nonedge", "pat", "tag", "ver", "explicit-edge", "atomres", "meta"]
+
+
+def composite_link(order, mods):
+    """bond BB - <order>BB with a set of modifiers (each a feature of the link language)"""
+    other = order + "BB"
+    p = str(ORDERS.index(order) + 1)
+    link = dict(resname=["A", "B", "C", "D"], atoms={}, inter={"bonds": [I(["BB", other], ["1", "0.5" + p, "5" + p + "0"])]})
+    meta = link["inter"]["bonds"][0][2]
+    if "atomres" in mods:
+        link["resname"] = None
+        link["atoms"]["BB"] = {"resname": "A|C"}
+        link["atoms"][other] = {"resname": "A|B|C|D"}
+    if "repl" in mods:
+        link["atoms"].setdefault(other, {})["replace"] = {"charge": 0.66}
+    if "tag" in mods:
+        link["atoms"].setdefault("BB", {})["tag"] = "x"
+    if "rm" in mods:
+        link["atoms"][order + "SA"] = {"resname": "A", "replace": {"atomname": None}}
+        link.setdefault("edges", []).append(("BB", order + "SA", {}))
+    if "ver" in mods:
+        meta["version"] = 1
+        link["inter"]["bonds"].append(I(["BB", other], ["1", "0.9" + p, "9" + p + "0"], {"version": 2}))
+    if "meta" in mods:
+        meta["ifdef"] = "FLEX"
+        meta["group"] = "composite"
+    if "pat" in mods:
+        link["patterns"] = [[("BB", {"resname": "A"}), (other, {"resname": "B"})], [("BB", {"resname": "C"}), (other, {"resname": "A"})],
+                            [("BB", {"resname": "A"}), (other, {"resname": "A"})]]
+    if "nonedge" in mods or "explicit-edge" in mods:
+        for it in link["inter"]["bonds"]:
+            it[2]["edge"] = False
+    if "explicit-edge" in mods:
+        link.setdefault("edges", []).append(("BB", other, {}))
+    if "nonedge" in mods:
+        # veto when BB already has a bonded BB neighbour in the previous residue; the link makes no edge of its own
+        link["non_edges"] = [("BB", "-BB", {})]
+        link["edges"] = [e for e in link.get("edges", []) if e[1] != other]
+    if not link["atoms"]:
+        link.pop("atoms")
+    return link
+
+
+def composite_names():
+    import itertools
+    out = []
+    for order in ORDERS:
+        for r in (1, 2):
+            for mods in itertools.combinations(MODIFIERS, r):
+                if "nonedge" in mods and "explicit-edge" in mods:
+                    continue
+                out.append("cmp:" + order + ":" + "+".join(mods))
+    return out
+
+
+def get_link(name):
+    if name.startswith("cmp:"):
+        _, order, mods = name.split(":")
+        return composite_link(order, mods.split("+"))
+    return LINKS[name]
